@@ -112,6 +112,166 @@ func init() {
 				}
 			}
 		}
+		out = append(out, racingScenarios(thorough)...)
 		return out, nil
 	})
+}
+
+// racing (discipline R): once the host is waiting for its answer, the answer and the event
+// deliveries of the chosen script are issued without waiting for quiescence in between - from
+// one goroutine each, or back-to-back in either order from one goroutine. Only clauses that
+// hold for every interleaving are checked: whichever of {answer, interrupting event} is
+// processed first decides, so exactly one of the normal flow and the interrupting exception
+// flows continues, never both and never neither.
+func racing(hostKind string, kinds []string, scripts [][]int, mode string) func() {
+	g := build(hostKind, kinds, false)
+	defs := g.Parse()
+	tags := strings.Join(kinds, "")
+	sig := "C10/" + hostKind + "-race"
+	fail := func(clause, format string, a ...any) { h.Fail(sig+clause+"#"+tags, format, a...) }
+	return func() {
+		script := scripts[verifrt.Choose(len(scripts))]
+		r := drv.Open(g, defs, drv.OpenOpts{})
+		r.StartAll()
+		verifrt.WaitIdle()
+		target := "host"
+		if hostKind == "sub" {
+			target = "inner"
+		}
+		p := r.Pending(target)
+		if !r.StartReturned || p == nil {
+			fail("/host-requested", "the host activity is not waiting for its answer after the start (pending %v)", r.PendingIDs())
+			return
+		}
+		returned, answered := 0, false
+		send := func(i int) {
+			r.Signal(fmt.Sprintf("E%d", i+1))
+			returned++
+		}
+		answer := func() {
+			r.Answer(p)
+			answered = true
+		}
+		switch mode {
+		case "concurrent":
+			go answer()
+			for _, i := range script {
+				i := i
+				go send(i)
+			}
+		case "event-then-answer":
+			go func() {
+				for _, i := range script {
+					send(i)
+				}
+				answer()
+			}()
+		case "answer-then-event":
+			go func() {
+				answer()
+				for _, i := range script {
+					send(i)
+				}
+			}()
+		}
+		verifrt.WaitIdle()
+		var hist []string
+		delivered := map[int]int{}
+		for _, i := range script {
+			hist = append(hist, fmt.Sprintf("E%d", i+1))
+			delivered[i]++
+		}
+		dump := func() {
+			for _, s := range r.Stream {
+				verifrt.Log("trace %s", s)
+			}
+		}
+		if returned != len(script) || !answered {
+			fail("/calls-return", "%d of %d ConsumeEvent calls returned, Do returned %v (%s, events %v); blocked: %v", returned, len(script), answered, mode, hist, verifrt.LiveRepoGoroutines())
+			dump()
+			return
+		}
+		interrupts := 0
+		for i, k := range kinds {
+			n := r.Requests(fmt.Sprintf("tx%d", i+1))
+			if n > delivered[i] {
+				fail("/exception-flow-too-often", "boundary event b%d continued %d times for %d deliveries (%s, events %v)", i+1, n, delivered[i], mode, hist)
+				dump()
+				return
+			}
+			if k == "I" {
+				if n > 1 {
+					fail("/interrupts-twice", "interrupting boundary event b%d continued its exception flow %d times (%s, events %v)", i+1, n, mode, hist)
+					dump()
+					return
+				}
+				interrupts += n
+			}
+		}
+		tn := r.Requests("tn")
+		switch {
+		case interrupts > 0 && tn > 0:
+			fail("/both-flows-continue", "the answer raced the event (%s, events %v): the normal flow (tn x%d) and an interrupting exception flow both continued", mode, hist, tn)
+			dump()
+			return
+		case interrupts == 0 && tn != 1:
+			fail("/normal-flow-once", "no interrupting boundary event fired (%s, events %v) and the host was answered, but the normal flow continued %d times", mode, hist, tn)
+			dump()
+			return
+		}
+		// once the activity is gone, further events change nothing
+		before := len(r.Tasks)
+		for i := range kinds {
+			go send(i)
+		}
+		verifrt.WaitIdle()
+		if returned != len(script)+len(kinds) {
+			fail("/calls-return", "ConsumeEvent after the activity has ended has not returned (%d of %d)", returned, len(script)+len(kinds))
+			return
+		}
+		if len(r.Tasks) != before {
+			fail("/reacts-after-end", "after the activity ended (%s, events %v) a further event produced new requests: %v", mode, hist, r.PendingIDs())
+			dump()
+			return
+		}
+		if len(r.Grammar) > 0 {
+			h.Fail("C09/engine/causal-order", "%s", r.Grammar[0])
+		}
+	}
+}
+
+func racingScenarios(thorough bool) []*h.Scn {
+	{
+		var out []*h.Scn
+		sets := [][]string{{"I"}, {"N"}, {"I", "N"}, {"N", "I"}, {"I", "I"}}
+		for _, hostKind := range []string{"task", "sub"} {
+			for _, kinds := range sets {
+				scripts := [][]int{{0}, {0, 0}}
+				if len(kinds) == 2 {
+					scripts = append(scripts, []int{1}, []int{0, 1}, []int{1, 0}, []int{1, 1})
+				}
+				for _, mode := range []string{"concurrent", "event-then-answer", "answer-then-event"} {
+					bounds := []int{0, 1}
+					if thorough {
+						bounds = append(bounds, 2)
+					}
+					for _, d := range bounds {
+						if d == 2 && len(kinds) == 2 && kinds[0] != "I" {
+							continue
+						}
+						sc := &h.Scn{Name: fmt.Sprintf("C10/%s-race/[%s]/%s/d%d", hostKind, strings.Join(kinds, ","), mode, d), Body: racing(hostKind, kinds, scripts, mode), Opts: verifrt.Options{Bound: d, UseCache: true}}
+						sc.Weight = len(scripts) * (1 + 300*d*d)
+						if d == 1 {
+							sc.Split = 4
+						}
+						if d >= 2 {
+							sc.Split = 16
+						}
+						out = append(out, sc)
+					}
+				}
+			}
+		}
+		return out
+	}
 }
